@@ -11,9 +11,12 @@ LEVEL = "exploration"
 RULE = ("G-core generated programs without assignment, `+=` or while loops (shadowing, closures, nested blocks, "
         "for loops, match arms with pattern variables, early exits, failing operations allowed). Selections: every "
         "sub-expression the generator knows to be pure and total (no output, cannot fail, calls only pure "
-        "terminating functions), by its exact source span, 2..4 random ones per program; and runs of 1..3 sibling "
+        "terminating functions), by its exact source span, 3..5 random ones per program (expressions that use a variable bound in a nested block, and branching expressions whose own blocks bind variables, are picked four times as often); and runs of 1..3 sibling "
         "statements that are `let`s with pure initialisers (whose variables are not used after the run) or pure "
         "expression statements (extract-function only). "
+        "Second population: a function whose body is a generated tree of value blocks (then / else / else-if / "
+        "match-arm / for-body / closure-body), each binding a block-local variable used by pure calls in statement, "
+        "argument and result positions; the selections are those calls. "
         "Each selection is given to the real `reftest-extract-variable` and `reftest-extract-function` with a fresh "
         "name; where the command produces a program it must parse, and - where the original ran without error - "
         "print the same stdout and end without error. Non-trivial = the command changed the program and the selected "
@@ -49,9 +52,26 @@ def gen(r):
                     max_depth=r.choice([2, 3]), exit_stress=False)
     prog, src = G.generate(r, knobs)
     exprs, runs = [], []
-    for n in G.walk_program(prog):
+    nodes = list(G.walk_program(prog))
+    top_blocks = {id(f.body) for f in prog.funs} | {id(prog.main)}
+    nested = [b.span for b in nodes if isinstance(b, G.Block) and id(b) not in top_blocks and b.span]
+
+    def in_nested(span):
+        return span is not None and any(s <= span[0] and span[1] <= e for s, e in nested)
+
+    for n in nodes:
         if isinstance(n, G.E) and n.pure and n.span and n.span[1] > n.span[0]:
-            exprs.append({"span": list(n.span), "kind": n.kind, "local": uses_local(n)})
+            # selections that depend on block-local bindings are where insertion points and free-variable analysis
+            # can go wrong: an expression using a variable bound inside a nested block, and a branching expression
+            # whose own blocks bind variables, are listed four times
+            sub = list(G.walk_expr(n))
+            block_local = any(isinstance(x, G.E) and x.kind == "var" and in_nested(getattr(x.args[0], "def_span", None))
+                              for x in sub)
+            binds_inside = n.kind in ("if", "match") and any(isinstance(x, G.S) and x.kind in ("let", "letd") for x in sub)
+            item = {"span": list(n.span), "kind": n.kind, "local": uses_local(n),
+                    "shape": "block-local" if block_local else ("binds-inside" if binds_inside else "plain")}
+            for _ in range(4 if (block_local or binds_inside) else 1):
+                exprs.append(item)
         if isinstance(n, G.Block):
             ok = [s for s in n.stmts]
             for i in range(len(ok)):
@@ -62,12 +82,80 @@ def gen(r):
                         runs.append({"span": [seg[0].span[0], seg[-1].span[1]], "kind": f"stmts:{len(seg)}",
                                      "local": True})
     sels = []
-    for _ in range(r.int(2, 4)):
+    for _ in range(r.int(3, 5)):
         if exprs:
             sels.append(exprs[r.int(0, len(exprs) - 1)])
     if runs and r.bool(0.6):
         sels.append(runs[r.int(0, len(runs) - 1)])
     return {"src": src, "sels": sels}
+
+
+def gen_ctrl(r):
+    """a function whose body is a generated tree of value blocks (then / else / else-if / match-arm / for-body /
+    closure-body), each binding a block-local variable and using it in pure calls `helper(vK + M)` in statement,
+    argument and result positions; the selections are exactly those calls (found by their unique M)"""
+    counter = [100]
+    sels = []
+
+    def fresh():
+        counter[0] += 1
+        return counter[0]
+
+    def use(v):
+        m = fresh()
+        text = f"helper({v} + {m})"
+        sels.append(text)
+        return text
+
+    def value_block(d, ind, src_var):
+        """-> (lines, result expression)"""
+        k = fresh()
+        v = f"v{k}"
+        lines = [f"{ind}let {v} = {src_var} + {k}"]
+        if r.bool():
+            lines.append(f"{ind}println(string_repr({use(v)}))")
+        res = use(v)
+        if d > 0:
+            c = r.int(0, 5)
+            rk = f"r{fresh()}"
+            if c == 0:
+                a, ra = value_block(d - 1, ind + "  ", v)
+                b, rb = value_block(d - 1, ind + "  ", v)
+                lines += [f"{ind}let {rk} = if {v} > {r.int(100, 110)} {{"] + a + [f"{ind}  {ra}", f"{ind}}} else {{"] + b + [f"{ind}  {rb}", f"{ind}}}"]
+                res = f"{res} + {rk}"
+            elif c == 1:
+                a, ra = value_block(d - 1, ind + "  ", v)
+                b, rb = value_block(d - 1, ind + "  ", v)
+                cc, rc = value_block(d - 1, ind + "  ", v)
+                lines += [f"{ind}let {rk} = if i == 0 {{"] + a + [f"{ind}  {ra}", f"{ind}}} else if i == 1 {{"] + b + [f"{ind}  {rb}", f"{ind}}} else {{"] + cc + [f"{ind}  {rc}", f"{ind}}}"]
+                res = f"{res} + {rk}"
+            elif c == 2:
+                a, ra = value_block(d - 1, ind + "    ", "m")
+                b, rb = value_block(d - 1, ind + "    ", v)
+                lines += [f"{ind}let {rk} = match (if i == {r.int(0, 2)} {{ Some({v}) }} else {{ None }}) {{", f"{ind}  Some(m) => {{"] + a + \
+                         [f"{ind}    {ra}", f"{ind}  }}", f"{ind}  None => {{"] + b + [f"{ind}    {rb}", f"{ind}  }}", f"{ind}}}"]
+                res = f"{res} + {rk}"
+            elif c == 3:
+                a, ra = value_block(d - 1, ind + "  ", "j")
+                lines += [f"{ind}for j in [{v}] {{"] + a + [f"{ind}  println(string_repr({ra}))", f"{ind}}}"]
+            elif c == 4:
+                a, ra = value_block(d - 1, ind + "  ", "e")
+                lines += [f"{ind}let {rk} = [{v}].map(fun(e: Int): Int {{"] + a + [f"{ind}  {ra}", f"{ind}}})"]
+                res = f"{res} + {rk}.len()"
+            else:
+                a, ra = value_block(d - 1, ind + "  ", v)
+                lines += [f"{ind}if {v} > 0 {{"] + a + [f"{ind}  println(string_repr({ra}))", f"{ind}}}"]
+        return lines, res
+
+    lines, res = value_block(r.choice([1, 2, 3]), "  ", "i")
+    src = ("fun helper(n: Int): Int { n * 2 }\n\nfun body(i: Int): Int {\n" + "\n".join(lines) + f"\n  {res}\n}}\n\n"
+           "for i in [0, 1, 2] {\n  println(string_repr(body(i)))\n}\n")
+    picked = []
+    for _ in range(r.int(3, 5)):
+        t = sels[r.int(0, len(sels) - 1)]
+        o = src.find(t)
+        picked.append({"span": [o, o + len(t)], "kind": "call", "local": True, "shape": "ctrl-tree"})
+    return {"src": src, "sels": picked}
 
 
 def bound_used_later(seg, rest, value) -> bool:
@@ -139,6 +227,7 @@ def check(case, ctx) -> Res:
             changed += 1
             local = local or sel["local"]
             cls.add(f"{short}:applied")
+            cls.add("shape:" + sel.get("shape", "stmts"))
             a = ctx.hook_call({"op": "ast", "src": new}, timeout=20)
             if "died" in a or "panic" in a or a.get("errors"):
                 return fail(f"{short} result does not parse [{sel['kind']}]",
@@ -166,4 +255,5 @@ def show(case):
     return {"sels": case["sels"], "src": case["src"][:500]}
 
 
-SUBS = [Sub("extract", check, gen=gen, cases={"quick": 220, "thorough": 8000}, show=show)]
+SUBS = [Sub("extract", check, gen=gen, cases={"quick": 180, "thorough": 8000}, show=show),
+        Sub("block-local-selections", check, gen=gen_ctrl, cases={"quick": 120, "thorough": 5000}, show=show)]
